@@ -750,49 +750,122 @@ def r_overlap_sym(ctx: RuleCtx, col: Collector):
     params = f.pos_params()
     if len(params) != 2:
         raise AnalysisError("_has_signal_overlap: expected two signal lists")
-
-    def resolving_helper(fn_name: str) -> bool:
-        for g in _functions(m):
-            if g.name == fn_name and g.rel == f.rel:
-                return any(isinstance(x, ast.While) and "isinstance" in norm(x.test) and "SignalSlice" in norm(x.test) for x in ast.walk(g.node)) or \
-                    ("SignalSlice" in norm(g.node) and ".base" in norm(g.node))
+    def strips_slices(fn_node) -> bool:
+        for x in ast.walk(fn_node):
+            if isinstance(x, ast.While) and isinstance(x.test, ast.Call) and norm(x.test.func) == "isinstance" and len(x.test.args) == 2 \
+                    and isinstance(x.test.args[0], ast.Name) and "SignalSlice" in norm(x.test.args[1]):
+                v = x.test.args[0].id
+                if any(isinstance(y, ast.Assign) and norm(y) == f"{v}={v}.base" for y in ast.walk(x)):
+                    return True
         return False
-    # element variables iterating over each parameter, and whether they are resolved to their base
-    resolved = {p: False for p in params}
-    found = {p: False for p in params}
-    for n in ast.walk(f.node):
-        it = var = None
-        if isinstance(n, ast.For):
-            it, var, body = n.iter, n.target, n.body
-        elif isinstance(n, ast.comprehension):
-            it, var, body = n.iter, n.target, [parent(n)]
-        if it is None or not isinstance(var, ast.Name):
-            continue
-        for p in params:
-            if isinstance(it, ast.Name) and it.id == p:
-                found[p] = True
-                v = var.id
-                for b in body:
-                    for x in ast.walk(b):
-                        # while isinstance(v, SignalSlice): v = v.base
-                        if isinstance(x, ast.While) and norm(x.test).replace(" ", "") == f"isinstance({v},SignalSlice)" and \
-                                any(isinstance(y, ast.Assign) and norm(y) == f"{v}={v}.base" for y in ast.walk(x)):
-                            resolved[p] = True
-                        if isinstance(x, ast.Call) and isinstance(x.func, ast.Name) and resolving_helper(x.func.id) and \
-                                any(isinstance(a, ast.Name) and a.id == v for a in x.args):
-                            resolved[p] = True
-                        if isinstance(x, ast.Attribute) and x.attr == "base_signal" and isinstance(x.value, ast.Name) and x.value.id == v:
-                            resolved[p] = True
+    resolving_funcs = {g.name for g in _functions(m) if g.rel == f.rel and g is not f and strips_slices(g.node) and
+                       any(isinstance(r, ast.Return) for r in ast.walk(g.node))}
+    # function-level names that hold a base signal
+    resolved: Set[str] = set()
+    for x in ast.walk(f.node):
+        if isinstance(x, ast.While) and isinstance(x.test, ast.Call) and norm(x.test.func) == "isinstance" and len(x.test.args) == 2 \
+                and isinstance(x.test.args[0], ast.Name) and "SignalSlice" in norm(x.test.args[1]):
+            v = x.test.args[0].id
+            if any(isinstance(y, ast.Assign) and norm(y) == f"{v}={v}.base" for y in ast.walk(x)):
+                resolved.add(v)
+    comp_targets = {y.id for n in ast.walk(f.node) if isinstance(n, ast.comprehension) for y in ast.walk(n.target) if isinstance(y, ast.Name)}
+
+    def is_res(e, renv: Set[str]) -> bool:
+        """expression denotes (the identity of) a base signal, or a container of such"""
+        if isinstance(e, ast.Name):
+            return e.id in renv
+        if isinstance(e, ast.Attribute) and e.attr == "base_signal":
+            return True
+        if isinstance(e, ast.Call):
+            if isinstance(e.func, ast.Name) and e.func.id in resolving_funcs:
+                return True
+            if isinstance(e.func, ast.Name) and e.func.id in ("id", "set", "list", "tuple", "frozenset") and e.args:
+                return is_res(e.args[0], renv)
+        if isinstance(e, (ast.SetComp, ast.ListComp, ast.GeneratorExp)):
+            return is_res(e.elt, renv)
+        return False
+
+    def org(e, oenv: Dict[str, Set[str]]) -> Set[str]:
+        if isinstance(e, ast.Name):
+            return set(oenv.get(e.id, ()))
+        if isinstance(e, (ast.SetComp, ast.ListComp, ast.GeneratorExp)):
+            o = set()
+            for g in e.generators:
+                o |= org(g.iter, oenv)
+            return o
+        o = set()
+        for ch in ast.iter_child_nodes(e):
+            o |= org(ch, oenv)
+        return o
+    origin: Dict[str, Set[str]] = {p: {p} for p in params}
+    changed = True
+    while changed:
+        changed = False
+        for n in ast.walk(f.node):
+            tg, src = [], None
+            if isinstance(n, ast.For):
+                tg, src = [n.target], n.iter
+            elif isinstance(n, ast.Assign):
+                tg, src = n.targets, n.value
+            if src is None:
+                continue
+            o = org(src, origin)
+            for t in tg:
+                for y in ast.walk(t):
+                    if isinstance(y, ast.Name) and y.id not in comp_targets and not o <= origin.get(y.id, set()):
+                        origin[y.id] = origin.get(y.id, set()) | o
+                        changed = True
+            if isinstance(n, ast.Assign) and len(n.targets) == 1 and isinstance(n.targets[0], ast.Name) and \
+                    n.targets[0].id not in resolved and is_res(n.value, resolved):
+                resolved.add(n.targets[0].id)
+                changed = True
+    # comparisons between elements of the two lists, with comprehension variables scoped
+    comps = []
+
+    def visit(n, oenv, renv):
+        if isinstance(n, (ast.SetComp, ast.ListComp, ast.GeneratorExp)):
+            oenv2, renv2 = dict(oenv), set(renv)
+            for g in n.generators:
+                o = org(g.iter, oenv2)
+                for y in ast.walk(g.target):
+                    if isinstance(y, ast.Name):
+                        oenv2[y.id] = o
+                        renv2.discard(y.id)
+                        if is_res(g.iter, renv2):
+                            renv2.add(y.id)
+                for c_ in g.ifs:
+                    visit(c_, oenv2, renv2)
+            visit(n.elt, oenv2, renv2)
+            return
+        if isinstance(n, ast.Compare) and len(n.ops) == 1 and isinstance(n.ops[0], (ast.Eq, ast.Is, ast.In)):
+            sides = [n.left, n.comparators[0]]
+            so = [org(sd, oenv) for sd in sides]
+            if so[0] and so[1] and so[0] != so[1]:
+                comps.append((n, sides, so, [is_res(sd, renv) for sd in sides]))
+        for ch in ast.iter_child_nodes(n):
+            visit(ch, oenv, renv)
+    visit(f.node, origin, resolved)
+    if not comps:
+        raise AnalysisError("_has_signal_overlap: comparison between the two signal lists not recognised")
     for p in params:
         construct = f"_has_signal_overlap: elements of '{p}' compared as base signals"
-        if not found[p]:
+        bad = None
+        seen = False
+        for n, sides, so, rs in comps:
+            for sd, o, r in zip(sides, so, rs):
+                if p in o:
+                    seen = True
+                    if not r:
+                        bad = n
+        if not seen:
             raise AnalysisError(f"_has_signal_overlap: iteration over '{p}' not recognised")
-        if resolved[p]:
+        if bad is None:
             col.ok(where_of(f), f.rel, line_of(f.node), construct, "resolved through .base while it is a SignalSlice")
         else:
-            col.bad(where_of(f), f.rel, line_of(f.node), construct,
-                    f"elements of '{p}' are compared as they are: a module reading or writing a slice of the signal is not "
-                    f"recognised as connected to it, so it is left out of the sub-network that finite_difference re-evaluates")
+            col.bad(where_of(f), f.rel, line_of(bad), construct,
+                    f"in '{norm(bad)}' the elements of '{p}' are compared as they are: a module reading or writing a slice of the "
+                    f"signal is not recognised as connected to it, so it is left out of the sub-network that finite_difference "
+                    f"re-evaluates")
 
 
 # ---------------------------------------------------------------------------------------------------- C20
@@ -897,63 +970,78 @@ def r_db_dtype(ctx: RuleCtx, col: Collector):
     term built from a database entry is therefore preceded, in the same block, by the complex-into-real test
     (np.iscomplexobj on the term / entry and on the accumulator) - otherwise NumPy refuses the cast and a call fails
     that succeeds on a fresh wrapper.  Out-of-place updates (a = a - t) promote and are fine."""
-    g, dbs = _db_helper(ctx)
-    ev = _db_entry_vars(g, dbs)
+    g0, dbs0 = _db_helper(ctx)
+    ev = _db_entry_vars(g0, dbs0)
+    # the helper and the self-methods it hands the database lists to (one level)
+    units = [(g0, set(dbs0))]
+    lda = ctx.model.public_class("LDAWrapper")
+    for c_ in ast.walk(g0.node):
+        if isinstance(c_, ast.Call) and isinstance(c_.func, ast.Attribute) and norm(c_.func.value) == ctx.model.self_name(g0):
+            for h in ctx.model.resolve_call(g0, c_, concrete=lda):
+                if h is g0 or h.cls is None:
+                    continue
+                hp = h.pos_params()
+                sub = {hp[i] for i, a in enumerate(c_.args) if i < len(hp) and isinstance(a, ast.Name) and a.id in dbs0}
+                sub |= {k.arg for k in c_.keywords if k.arg and isinstance(k.value, ast.Name) and k.value.id in dbs0}
+                if sub:
+                    units.append((h, sub))
+                    ev |= _db_entry_vars(h, sub)
     if not ev:
-        raise AnalysisError(f"{g.short}: no loop over the database entries found")
+        raise AnalysisError(f"{g0.short}: no loop over the database entries found")
     n_sites = 0
-    for n in ast.walk(g.node):
-        if not isinstance(n, ast.AugAssign) or not isinstance(n.op, (ast.Sub, ast.Add)):
-            continue
-        # term depends on a database entry variable of an enclosing loop (directly or via locals defined in that loop)
-        lp = parent(n)
-        loops = []
-        while lp is not None and lp is not g.node:
-            if isinstance(lp, ast.For):
-                loops.append(lp)
-            lp = parent(lp)
-        entry_here = set()
-        for l in loops:
-            if _names(l.iter) & dbs:
-                entry_here |= {x.id for x in ast.walk(l.target) if isinstance(x, ast.Name)}
-        if not entry_here:
-            continue
-        inner = [l for l in loops if _names(l.iter) & dbs][0]
-        dep = _dependent_names(inner, set(entry_here))
-        if not (_names(n.value) & dep):
-            continue
-        tgt = n.target
-        base = tgt
-        while isinstance(base, ast.Subscript):
-            base = base.value
-        if not isinstance(base, ast.Name) or base.id in entry_here:
-            continue
-        n_sites += 1
-        construct = f"{g.short}: '{stmt_key(n)}'"
-        # preceding statements of the same block (and enclosing blocks inside the entry loop): complex-into-real test
-        guarded = False
-        st = n
-        while st is not inner and st is not None:
-            blk = parent(st)
-            for fld in ("body", "orelse"):
-                lst = getattr(blk, fld, None)
-                if isinstance(lst, list) and st in lst:
-                    for prev in lst[:lst.index(st)]:
-                        if isinstance(prev, ast.If):
-                            t = norm(prev.test)
-                            term_names = (_names(n.value) & dep) | entry_here
-                            if "iscomplexobj(" in t and any(f"iscomplexobj({v})" in t for v in term_names) and f"iscomplexobj({base.id})" in t:
-                                guarded = True
-            st = blk
-        if guarded:
-            col.ok(where_of(g), g.rel, line_of(n), construct, "preceded by the complex-into-real test on term and accumulator")
-        else:
-            col.bad(where_of(g), g.rel, line_of(n), construct,
-                    f"'{base.id}' (dtype of the current call) is updated in place with a term built from a stored vector "
-                    f"({sorted(_names(n.value) & dep)}) without the complex-into-real test its sibling updates have: after a "
-                    f"complex right-hand side on a real matrix, a real one raises a casting error here")
+    for g, dbs in units:
+      for n in ast.walk(g.node):
+          if not isinstance(n, ast.AugAssign) or not isinstance(n.op, (ast.Sub, ast.Add)):
+              continue
+          # term depends on a database entry variable of an enclosing loop (directly or via locals defined in that loop)
+          lp = parent(n)
+          loops = []
+          while lp is not None and lp is not g.node:
+              if isinstance(lp, ast.For):
+                  loops.append(lp)
+              lp = parent(lp)
+          entry_here = set()
+          for l in loops:
+              if _names(l.iter) & dbs:
+                  entry_here |= {x.id for x in ast.walk(l.target) if isinstance(x, ast.Name)}
+          if not entry_here:
+              continue
+          inner = [l for l in loops if _names(l.iter) & dbs][0]
+          dep = _dependent_names(inner, set(entry_here))
+          if not (_names(n.value) & dep):
+              continue
+          tgt = n.target
+          base = tgt
+          while isinstance(base, ast.Subscript):
+              base = base.value
+          if not isinstance(base, ast.Name) or base.id in entry_here:
+              continue
+          n_sites += 1
+          construct = f"{g.short}: '{stmt_key(n)}'"
+          # preceding statements of the same block (and enclosing blocks inside the entry loop): complex-into-real test
+          guarded = False
+          st = n
+          while st is not inner and st is not None:
+              blk = parent(st)
+              for fld in ("body", "orelse"):
+                  lst = getattr(blk, fld, None)
+                  if isinstance(lst, list) and st in lst:
+                      for prev in lst[:lst.index(st)]:
+                          if isinstance(prev, ast.If):
+                              t = norm(prev.test)
+                              term_names = (_names(n.value) & dep) | entry_here | (_names(prev.test) & dep)
+                              if "iscomplexobj(" in t and any(f"iscomplexobj({v})" in t for v in term_names - {base.id}) and f"iscomplexobj({base.id})" in t:
+                                  guarded = True
+              st = blk
+          if guarded:
+              col.ok(where_of(g), g.rel, line_of(n), construct, "preceded by the complex-into-real test on term and accumulator")
+          else:
+              col.bad(where_of(g), g.rel, line_of(n), construct,
+                      f"'{base.id}' (dtype of the current call) is updated in place with a term built from a stored vector "
+                      f"({sorted(_names(n.value) & dep)}) without the complex-into-real test its sibling updates have: after a "
+                      f"complex right-hand side on a real matrix, a real one raises a casting error here")
     if n_sites == 0:
-        col.ok(where_of(g), g.rel, line_of(g.node), f"{g.short}: no in-place update with database terms", "")
+        col.ok(where_of(g0), g0.rel, line_of(g0.node), f"{g0.short}: no in-place update with database terms", "")
     dedupe(col)
 
 
@@ -1197,7 +1285,12 @@ def r_alloc_dtype(ctx: RuleCtx, col: Collector):
     right-hand side / prescribed value / stored solution.  In _sensitivity only data remembered from the response is
     considered (the seeds follow the state's type by convention)."""
     m = ctx.model
-    for c in [k for k in m.module_classes() if m.resolve_method(k, '_response') is not None and m.resolve_method(k, '_response').cls is not m.module_base()]:
+    def _produces_state(k):
+        r = m.resolve_method(k, '_response')
+        return r is not None and r.cls is not m.module_base() and any(
+            isinstance(n, ast.Return) and n.value is not None for n in ast.walk(r.node))
+    # figure / file writers (no output state) colour pixels and format text: not numerical results
+    for c in [k for k in m.module_classes() if _produces_state(k)]:
         resp = m.resolve_method(c, "_response")
         selfn = m.self_name(resp)
         rparams = set(resp.pos_params()) | ({resp.vararg()} if resp.vararg() else set())
